@@ -71,7 +71,7 @@ ALL = {
           "Coq proof (induction over element list, Q arithmetic) + differential correspondence of the extracted model",
           "IEEE rounding in ValueAtValue compared within rel 2^-40; empty frames sharing a start with another frame are outside the compared domain (factory validation rejects empty frames)."),
 }
-READY = ["C01", "C02", "C03", "C04", "C05", "C06", "C07", "C08", "C10", "C11", "C12", "C13", "C14", "C15", "C16", "C17", "C18", "C19", "C20"]
+READY = ["C01", "C02", "C03", "C04", "C05", "C06", "C07", "C08", "C09", "C10", "C11", "C12", "C13", "C14", "C15", "C16", "C17", "C18", "C19", "C20"]
 CLAIMED = {k: ALL[k] for k in READY}
 NA_REASON = "check under construction (not yet claimed)"
 
